@@ -37,14 +37,14 @@ def _normalise_split_results(
     if len(normalise) == len(results):
         return [(i.T / j).T for i, j in zip(results, normalise, strict=True)]
 
-    results = []
+    normalised = []
     start = 0
     end = 0
     for i in results:
         end += len(i)
-        results.append(i / np.reshape(normalise[start:end], (len(i), 1)))  # type: ignore
-        start += end
-    return results
+        normalised.append(i / np.reshape(normalise[start:end], (len(i), 1)))  # type: ignore
+        start = end
+    return normalised
 
 
 @dataclass(kw_only=True, slots=True)
